@@ -46,6 +46,8 @@ func (o nOp) String() string {
 		return "Close(" + o.arg + ")"
 	case "chain":
 		return fmt.Sprintf("NodeList: h%d.SetLink(h%d)", o.h, o.h2)
+	case "iterclosed":
+		return "NewIterator(closed snapshot)"
 	}
 	return o.kind
 }
@@ -67,6 +69,9 @@ type seqCfg struct {
 func seqOps(e *nEnv, sc *seqCfg, phys []physVer) []nOp {
 	var ops []nOp
 	keys := []string{"a", "b"}
+	if e.cfg.cmp == "kv" {
+		keys = []string{"a", "ab"} // key-only comparator: keys of different length, one a prefix of the other
+	}
 	if sc.keys != nil {
 		keys = sc.keys
 	}
@@ -131,6 +136,15 @@ func seqOps(e *nEnv, sc *seqCfg, phys []physVer) []nOp {
 			}
 		}
 	}
+	// NewIterator on a snapshot whose last reference was dropped (must return nil and leave nothing behind)
+	if sc.prop == "C07" || sc.prop == "C04" || sc.prop == "C08" {
+		for _, s := range e.snaps {
+			if s.closed {
+				ops = append(ops, nOp{kind: "iterclosed"})
+				break
+			}
+		}
+	}
 	ops = append(ops, nOp{kind: "stop"})
 	return ops
 }
@@ -184,6 +198,14 @@ func (e *nEnv) stateKey(phys []physVer) string {
 			}
 		}
 		fmt.Fprintf(&sb, "h%d:%v:%d,", h.ver.id, linked[h.node], l)
+	}
+	if e.cfg.mm {
+		// reclamation state: tokens outstanding in the current session, sessions closed / destructed / queued
+		ab := nitro.VerifStore(e.db).GetAccesBarrier()
+		a, f, q, fs := ab.GetStats()
+		fmt.Fprintf(&sb, "|bar=%d,%d,%d,%d,%d", skiplist.VerifBarrierCurrentLive(ab), a, f, q, fs)
+		live, _ := e.ga.Live()
+		fmt.Fprintf(&sb, "|blocks=%d", live)
 	}
 	st := nitro.VerifAggrStats(e.db)
 	fmt.Fprintf(&sb, "|st=%d,%d,%d,%d,%d,%v", st.NodeCount, st.SoftDeletes, st.Memory, st.NodeAllocs, st.NodeFrees, st.NodeDistribution[:4])
@@ -258,6 +280,16 @@ func (e *nEnv) apply(op nOp, sc *seqCfg) string {
 		}
 	case "chain":
 		e.handles[op.h].node.SetLink(e.handles[op.h2].node)
+	case "iterclosed":
+		for _, s := range e.snaps {
+			if s.closed {
+				if it := s.s.NewIterator(); it != nil {
+					it.Close()
+					return fmt.Sprintf("NewIterator succeeded on snapshot epoch %d after its last reference was dropped", s.sn)
+				}
+				break
+			}
+		}
 	case "close":
 		var t *openSnap
 		for _, s := range e.snaps {
@@ -288,6 +320,10 @@ func (e *nEnv) checkOpenSnapshots() string {
 		}
 		if c := s.s.Count(); c != int64(len(s.content)) {
 			return fmt.Sprintf("open snapshot epoch %d Count()=%d, it holds %d items", s.sn, c, len(s.content))
+		}
+		// the same content through the parallel scan API (two shards)
+		if p := visitOnce(e, s, 2, 1, 0); p != "" {
+			return p
 		}
 		// the same scan through an iterator that refreshes its accessor token after every item
 		got2, p2 := scanSnapRate(s.s, 1)
@@ -522,6 +558,9 @@ func runSeq(jc *JobCtx, sc seqCfg, firstOps []int) {
 			if p := e.apply(op, &sc); p != "" {
 				if sc.prop == "C02" {
 					fail("set-semantics", p)
+				}
+				if op.kind == "iterclosed" {
+					fail("refcount", p)
 				}
 				// other properties: a wrong return value is C02's business, but the model would diverge; stop here
 				outcome = "diverged"
